@@ -54,6 +54,7 @@ type c09Sched struct {
 	// shadow of the condition variable: who waits (in order), who was notified and has not returned yet
 	waiters map[string]bool
 	transit []time.Time // notifications sent under L whose receiver has not returned from Wait yet
+	bcasting int   // unlocked broadcasts between their pre hook and their record
 	nRecords int64 // every handled hook event / note
 	created  int   // workers created so far (from su records), exited = ex records
 	exited   int
@@ -205,8 +206,9 @@ func (s *c09Sched) Note(text string) {
 }
 
 func (s *c09Sched) handle(point string, args ...interface{}) {
+	pre := point == "pool.bcast.pre"
 	info, ok := c09Points[point]
-	if !ok {
+	if !ok && !pre {
 		return
 	}
 	gid := c09Goid()
@@ -219,6 +221,22 @@ func (s *c09Sched) handle(point string, args ...interface{}) {
 	if thread == "" {
 		s.mu.Unlock()
 		return
+	}
+	// An unlocked Broadcast is made atomic with its record: between its pre hook and its record no
+	// worker passes `bw` (before Wait) or `aw` (after Wait). The broadcaster only executes
+	// Broadcast() in between, so the gate always opens again.
+	if pre {
+		s.bcasting++
+		s.mu.Unlock()
+		return
+	}
+	if info.code == "bc" && s.bcasting > 0 {
+		s.bcasting--
+	}
+	for (info.code == "bw" || info.code == "aw") && s.bcasting > 0 && s.recording {
+		s.mu.Unlock()
+		runtime.Gosched()
+		s.mu.Lock()
 	}
 	text := info.code
 	for k, kind := range info.args {
